@@ -229,6 +229,8 @@ def run(ctx):
     if ctx.replay:
         _replay(ctx)
         return
+    from framework import run_py_corpus
+    ctx.coverage["corpus_programs"] = run_py_corpus(ctx)
     ctx.coverage["rule"] = (
         "seeded random machine definitions (1-6 states; finals; self, internal, multi-event and parallel "
         "transitions; cond/unless guards by name, callable and boolean expression; entry/exit/on actions by "
@@ -307,6 +309,5 @@ def run(ctx):
         distribution=dist, views=["pydot objects in add_node/add_edge order", "DOT text with DOT-language semantics"],
         excluded_from_generation=["state id 'i' (known finding state-id-i)",
                                   "state ids node/edge/graph in any letter case (known finding state-id-dot-keyword)",
-                                  "backslash or newline in state names (escString interpretation of labels)",
-                                  "async machines before activation (no current state)"],
+                                  "backslash or newline in state names (escString interpretation of labels)"],
         processes=nproc, **stats)
